@@ -108,7 +108,7 @@ Proof.
   rewrite (encs_stream compress (b1 :: bs') Hleg_bs), Hitems in Hcut.
   rewrite (enc_legacy_stream compress b1 (Forall_inv Hleg_bs)) in Hcut.
   destruct Hcut as [Hk1 Hk2].
-  pose proof (mh_pos it1 Hok1) as Hmh.
+  pose proof (mh_pos decomp [] it1 Hok1) as Hmh.
   assert (Hkmh : len (mh (fst it1) (snd it1)) <= Z.of_nat k).
   { unfold items_of in Hk1. rewrite Er1 in Hk1. cbn [map stream flat_map] in Hk1. unfold enc_item in Hk1.
     cbn [fst snd] in Hk1. rewrite !app_length in Hk1. unfold len, it1. cbn [fst snd]. lia. }
@@ -117,28 +117,53 @@ Proof.
   assert (Hlenk : len (ztake (Z.of_nat k) (stream (it1 :: rest))) = Z.of_nat k).
   { rewrite ztake_firstn. unfold len. rewrite firstn_length. lia. }
   assert (Hstart : fetch_run decomp fuel o hwm (ztake (Z.of_nat k) (stream (it1 :: rest))) (Z.of_nat k) false
-                   = batch_run decomp fuel (LB o (PIn it1 rest j0) o) []).
+                   = batch_run decomp fuel (LB [] o (PIn it1 rest j0) o) []).
   { unfold fetch_run, new_batch. replace (hwm =? o) with false by lia.
     unfold new_msr. rewrite <- Hlenk at 2.
     change (mkMsr [mkFrame ?i (len ?i) 0 0 hdr0] false 0 (-1)) with (st i 0 hdr0 0 (-1)).
-    rewrite stream_cons, ztake_ge by lia.
+    rewrite <- (app_nil_r (stream (it1 :: rest))). rewrite (stream_cons []), ztake_ge by lia.
     rewrite (mheader_ok (fst it1) (snd it1) _ 0 hdr0 0 (-1) Hok1). reflexivity. }
   rewrite Hstart.
   assert (Hpos : pos_ok1 (PIn it1 rest j0)) by (cbn [pos_ok1]; split; [exact Hok1|split; [exact Hokr|unfold j0; lia]]).
   assert (Hcnt : (pcount (PIn it1 rest j0) + 3 <= fuel)%nat).
   { cbn [pcount]. rewrite Hitems in Hfuel. cbn [length] in Hfuel. lia. }
-  pose proof (run_refine_v1 decomp o fuel (PIn it1 rest j0) o [] Hpos ltac:(lia) Hcnt) as Href.
-  destruct (l_run fuel (PIn it1 rest j0) o []) as [[ms x]|] eqn:Erun; [|contradiction].
-  exists ms, x. split; [exact Href|].
-  (* offsets *)
   assert (Hpend : pend (PIn it1 rest j0) = flat_map pb_recs (b1 :: bs')).
   { cbn [pend]. rewrite <- recs_of_items, Hitems. reflexivity. }
-  assert (Hinc : exists lo, increasing lo (pend (PIn it1 rest j0))).
-  { rewrite Hpend. rewrite Hlogsplit in Hlog2. apply (increasing_app_r _ _ _ Hlog2). }
-  destruct Hinc as [lo Hinc].
-  destruct (l_run_spec decomp o fuel (PIn it1 rest j0) o [] ms x lo Ho0 ltac:(lia) Hinc ltac:(intros r _ H; exact H) Erun)
-    as (Rp & Rs & G1 & G2 & G3 & G4 & G5).
-  cbn [rev app] in G2. left. split; [exact G5|]. rewrite G2. unfold mm. f_equal.
+  assert (HI : linv [] o (PIn it1 rest j0) o).
+  { split; [exact Ho0|]. split; [lia|]. rewrite app_nil_r, Hpend. split.
+    - rewrite Hlogsplit in Hlog2. apply (increasing_app_r _ _ _ Hlog2).
+    - split; [|intros r _ H; exact H].
+      intros _. (* the first batch reaches o, everything later is above *)
+      assert (Hlast1 : o <= pb_last b1).
+      { unfold bs in Ebs. clear -Ebs. induction l as [|b t IH]; [discriminate|].
+        cbn [from_offset] in Ebs. destruct (pb_last b <? o) eqn:E; [apply IH; exact Ebs|].
+        injection Ebs as <- _. lia. }
+      unfold pb_last in Hlast1. replace (pb_fmt b1 =? 2) with false in Hlast1 by lia. rewrite Er1 in Hlast1.
+      assert (Hinc : exists lo, increasing lo (flat_map pb_recs (b1 :: bs')))
+        by (rewrite Hlogsplit in Hlog2; apply (increasing_app_r _ _ _ Hlog2)).
+      destruct Hinc as [lo Hinc]. cbn [flat_map] in *. rewrite Er1 in *.
+      destruct (last_off_in ((r1 :: rs1) ++ flat_map pb_recs bs') 0 ltac:(discriminate)) as (rl & Hrl & Hel).
+      rewrite <- Hel.
+      destruct (last_off_in (r1 :: rs1) (pb_base b1 + pb_lod b1) ltac:(discriminate)) as (r0 & Hr0 & He0).
+      rewrite <- He0 in Hlast1.
+      pose proof (last_off_max _ _ 0 r0 Hinc (in_or_app _ _ r0 (or_introl Hr0))). lia. }
+  pose proof (run_refine_v1 decomp [] [] o fuel (PIn it1 rest j0) o [] Hpos HI Hcnt) as Href.
+  pose proof (l_run_spec decomp [] [] o fuel (PIn it1 rest j0) o [] HI) as Hspec.
+  assert (Hres : exists ms x, batch_run decomp fuel (LB [] o (PIn it1 rest j0) o) [] = Some (ms, EEOF, x)
+                  /\ exists Rp Rs, pend (PIn it1 rest j0) = Rp ++ Rs /\ ms = mm (filter (fun r => o <=? r_off r) Rp)
+                       /\ Forall (fun r => r_off r < x) Rp /\ (forall r, In r Rs -> o <= r_off r -> x <= r_off r) /\ o <= x).
+  { destruct (l_run fuel (PIn it1 rest j0) o []) as [ms x|j h off' acc' f'|]; [| |contradiction].
+    - exists ms, x. split; [exact Href|]. destruct Hspec as (Rp & Rs & G1 & G2 & G3 & G4 & G5).
+      exists Rp, Rs. cbn [rev app] in G2. rewrite app_nil_r in G4. auto.
+    - destruct Href as (Hr1 & Hf' & Hoo & Hjj & _). destruct Hspec as (G1 & G2 & G3 & _).
+      destruct f' as [|f2]; [lia|]. rewrite (bnd_nil_done decomp [] o f2 j h off' acc' eq_refl) in Hr1.
+      exists (rev acc'), (lfinal off'). split; [exact Hr1|].
+      exists (pend (PIn it1 rest j0)), []. rewrite app_nil_r. cbn [rev app] in G1.
+      unfold lfinal. replace (off' <=? -1) with false by lia.
+      split; [reflexivity|]. split; [exact G1|]. split; [exact G2|]. split; [intros r []|lia]. }
+  destruct Hres as (ms & x & Hrun & Rp & Rs & G1 & G2 & G3 & G4 & G5).
+  exists ms, x. split; [exact Hrun|].
+  left. split; [exact G5|]. rewrite G2. unfold mm. f_equal.
   rewrite Hlogsplit. unfold between. rewrite filter_app. rewrite <- Hpend, G1, filter_app.
   rewrite (filter_all_false _ (flat_map pb_recs pre)).
   2:{ rewrite Hlogsplit in Hlog2. pose proof (increasing_app_l _ _ _ Hlog2) as Hip.
